@@ -4,18 +4,18 @@ add, subtract and compare only within one unit.
   role 1  C09_Cal  : FPCalendar laws (400-year cycle, sampled 0001..9999, every day of the case years)
           C09_MC   : FPTemporal laws on every enumerated case; four mutant twins must fail
   role 2  C09_MC   : one JSON case per explored transition (quick / thorough pools)
-          C09_Sim  : tlc -simulate sampling of the full product (thorough)
+          C09_Sim  : tlc -simulate sampling of the full product
   run     harness/cmd/c09: literal / env / FHIR element / direct API / equality channels
   role 3  C09_Judge: one verdict per observation, in chunks judged by parallel TLC runs
 """
-import collections, copy, os, re, threading, time
+import collections, copy, json, os
 from concurrent.futures import ThreadPoolExecutor
 from lib import driver as D
 
 MUTANTS = ["noClamp", "weekIs5Days", "countNotDuration", "dropOffset"]
-CHUNK = 8000          # observations per judge run (TLC keeps one copy of the observations per worker)
-JUDGES = 4            # judge runs in flight
-JUDGE_WORKERS = 4
+CHUNK = 6000          # observations per judge run (TLC keeps one copy of the observations per worker)
+JUDGES = 6            # judge runs in flight
+JUDGE_WORKERS = 3
 
 
 class _SeedCtx:
@@ -38,14 +38,15 @@ def _par(jobs, width):
         return [f.result() for f in futs]
 
 
-def judge_chunks(ctx, obs, tag="judge"):
-    """Split the observations, judge the chunks with parallel TLC runs, return all verdicts."""
+def judge_lines(ctx, lines, tag="judge"):
+    """Split the observation lines, judge the chunks with parallel TLC runs, return all verdicts."""
     base = ctx.path(tag + ".obs")
     D.write_params(ctx, {"ObsFile": base})
     names = []
-    for k in range(0, len(obs), CHUNK):
+    for k in range(0, len(lines), CHUNK):
         suffix = ".%d" % (k // CHUNK)
-        D.write_ndjson(base + suffix, obs[k:k + CHUNK])
+        with open(base + suffix, "w") as f:
+            f.write("\n".join(lines[k:k + CHUNK]) + "\n")
         cfg = "C09_%s_%d.cfg" % (tag, k // CHUNK)
         with open(ctx.path("spec", cfg), "w") as f:
             f.write('SPECIFICATION Spec\nCONSTANT Mutant = "none"\nCONSTANT Chunk = "%s"\n' % suffix)
@@ -56,7 +57,8 @@ def judge_chunks(ctx, obs, tag="judge"):
             r = D.run_tlc(ctx, "C09_Judge", cfg, workers=JUDGE_WORKERS, timeout=1500, tag=cfg[:-4])
             if r.violated:
                 raise D.Inconclusive("judge reported a TLC-level violation %s:\n%s" % (r.violated, r.stdout[-2000:]))
-            return r.records
+            # the permitted set is only kept for rejected observations (memory)
+            return [rec if not rec.get("ok") else {"id": rec["id"], "ok": True, "sig": ""} for rec in r.records]
         return go
     out = []
     for recs in _par([one(c) for c in names], JUDGES):
@@ -76,7 +78,7 @@ def run(ctx):
         box["cal"] = D.model_check(ctx, "C09_Cal", "C09_cal.cfg", workers=4)
 
     def gen():
-        box["mc"] = D.model_check(ctx, "C09_MC", "C09_mc_%s.cfg" % ctx.tier, workers=max(4, D.NCPU - 6), timeout=1500)
+        box["mc"] = D.model_check(ctx, "C09_MC", "C09_mc_%s.cfg" % ctx.tier, workers=max(4, D.NCPU - 6), timeout=2400)
 
     def twin(m):
         return lambda: D.mutant_twin(ctx, "C09_MC", "C09_mut_%s.cfg" % m, m, workers=2)
@@ -84,89 +86,107 @@ def run(ctx):
     def sim(k, num):
         def go():
             r = D.run_tlc(_SeedCtx(ctx, ctx.seed * 16 + k), "C09_Sim", "C09_sim.cfg", workers=1, simulate="num=%d" % num, depth=100,
-                          tag="sim%d" % k, timeout=1200)
+                          tag="sim%d" % k, timeout=1500)
             if r.violated or r.error:
                 raise D.Inconclusive("sampling run failed:\n" + r.stdout[-2000:])
-            box["sim%d" % k] = r.records
+            box["sim%d" % k] = r
         return go
 
     jobs = [gen, cal] + [twin(m) for m in (MUTANTS if thorough else MUTANTS[:2])]
     nsim = 4 if thorough else 1
-    jobs += [sim(k, 500 if thorough else 40) for k in range(nsim)]      # 100 cases per trace
-    _par(jobs, 5)
-    if box["cal"].distinct < 600:
-        raise D.Inconclusive("calendar laws were checked on only %d years" % box["cal"].distinct)
+    jobs += [sim(k, 500 if thorough else 20) for k in range(nsim)]      # 100 cases per trace
+    _par(jobs, 6)
+    years = box["cal"].distinct
+    if years < 600:
+        raise D.Inconclusive("calendar laws were checked on only %d years" % years)
 
-    cases, seen = [], set()
-    for r in box["mc"].records + [c for k in range(nsim) for c in box["sim%d" % k]]:
-        if r["id"] not in seen:
-            seen.add(r["id"])
-            cases.append(r)
-    floor = 150000 if thorough else 40000
-    if len(cases) < floor:
-        raise D.Inconclusive("generator emitted only %d cases" % len(cases))
-    D.write_ndjson(ctx.path("cases.ndjson"), cases)
+    seen, ncases, nsampled = set(), 0, 0
+    with open(ctx.path("cases.ndjson"), "w") as f:
+        for src in ["mc"] + ["sim%d" % k for k in range(nsim)]:
+            for r in box[src].records:
+                if r["id"] not in seen:
+                    seen.add(r["id"])
+                    f.write(json.dumps(r, separators=(",", ":")) + "\n")
+                    ncases += 1
+                    nsampled += src != "mc"
+    box.clear()
+    seen = None
+    if ncases < (300000 if thorough else 40000):
+        raise D.Inconclusive("generator emitted only %d cases" % ncases)
 
     # direction A: replay every case in the real code
     D.run_harness(ctx, binary, ["run", ctx.path("cases.ndjson"), ctx.path("obs.ndjson")])
-    obs = D.read_ndjson(ctx.path("obs.ndjson"))
+    lines = [l for l in open(ctx.path("obs.ndjson")).read().split("\n") if l]
 
     # role 3
-    verdicts = judge_chunks(ctx, obs)
-    D.check_complete(verdicts, obs)
+    verdicts = judge_lines(ctx, lines)
+    if len(verdicts) != len(lines) or len({v["id"] for v in verdicts}) != len(lines):
+        raise D.Inconclusive("judge returned %d verdicts for %d observations" % (len(verdicts), len(lines)))
     malformed = [v for v in verdicts if v.get("sig", "").startswith("malformed|")]
     if malformed:
         raise D.Inconclusive("%d malformed record(s), e.g. %s: %s" % (len(malformed), malformed[0]["id"], malformed[0]["sig"]))
-    if thorough:
-        corrupt_probe(ctx, obs, verdicts)
 
-    by_id = {o["id"]: o for o in obs}
-    kinds = collections.Counter(o["cs"]["kind"] for o in obs)
+    # one pass over the observations: counts, keys, samples, and the records of rejected observations
+    rejected = {v["id"] for v in verdicts if not v["ok"]}
+    probe = {}
+    kinds, keys, samples, by_id = collections.Counter(), set(), [], {}
+    nchan = values = 0
+    step = max(1, len(lines) // 6)
+    for n, l in enumerate(lines):
+        o = json.loads(l)
+        c = o["cs"]
+        kinds[c["kind"]] += 1
+        nchan += sum(1 for ch in o["outs"].values() if ch["k"] != "na")
+        values += c["kind"] == "ar" and o["outs"]["direct"]["k"] == "ok"
+        th = c["q"]["th"]
+        keys.add((c["kind"], c["x"]["t"], c["x"]["p"], c["op"], c["q"]["unit"], (th > 0) - (th < 0), th % 1000 == 0, o["outs"]["lit"]["k"]))
+        if n % step == 0:
+            samples.append({"src": o["src"], "out": o["outs"]["lit"], "direct": o["outs"]["direct"]})
+        if o["id"] in rejected:
+            by_id[o["id"]] = o
+        elif thorough and len(probe) < 2:
+            pick_probe(o, probe)
     if min(kinds.get(k, 0) for k in ("ar", "inv", "cmp", "qq")) == 0:
         raise D.Inconclusive("dead driver: a case kind is missing %s" % dict(kinds))
-    nchan = sum(1 for o in obs for c in o["outs"].values() if c["k"] != "na")
-    moved = sum(1 for o in obs if o["cs"]["kind"] == "ar" and o["outs"]["direct"]["k"] == "ok")
-    if moved < len(obs) // 4:
-        raise D.Inconclusive("dead driver: only %d direct calls returned a value" % moved)
-    keys = [(o["cs"]["kind"], o["cs"]["x"]["t"], o["cs"]["x"]["p"], o["cs"]["op"], o["cs"]["q"]["unit"],
-             (o["cs"]["q"]["th"] > 0) - (o["cs"]["q"]["th"] < 0), o["cs"]["q"]["th"] % 1000 == 0, o["outs"]["lit"]["k"]) for o in obs]
-    step = max(1, len(obs) // 6)
+    if values < len(lines) // 4:
+        raise D.Inconclusive("dead driver: only %d direct calls returned a value" % values)
+    if thorough:
+        corrupt_probe(ctx, probe)
+
     return D.finish(
         ctx, verdicts, by_id, evaluations=nchan,
-        rule="cases enumerated by TLC from the property's quantifier (%s tier: %d cases = %s%s); every case is run through up to six "
-             "channels (literal text, environment variables, FHIR element, direct system.*.Add/Sub, result = reference literal, "
-             "inverse = x); distinct = (kind, type, precision, operator, unit spelling, amount sign, amount integral, outcome kind)"
-             % (ctx.tier, len(obs), ", ".join("%s %d" % kv for kv in sorted(kinds.items())),
-                "; of which %d sampled by tlc -simulate" % sum(len(box["sim%d" % k]) for k in range(nsim))),
-        nontrivial_keys=keys,
-        samples=[{"src": o["src"], "out": o["outs"]["lit"], "direct": o["outs"]["direct"]} for o in obs[::step]],
-        exhaustive=False,
+        rule="cases enumerated by TLC from the property's quantifier (%s tier: %d cases = %s; of which %d sampled by tlc -simulate); "
+             "every case is run through up to six channels (literal text, environment variables, FHIR element, direct "
+             "system.*.Add/Sub, result = reference literal, inverse = x); distinct = (kind, type, precision, operator, unit "
+             "spelling, amount sign, amount integral, outcome kind)"
+             % (ctx.tier, len(lines), ", ".join("%s %d" % kv for kv in sorted(kinds.items())), nsampled),
+        nontrivial_keys=list(keys), samples=samples, exhaustive=False,
         assumptions=["amounts have at most three decimals and magnitude at most 2000 (the property lists 0..1000, fractional, negative)",
-                     "FHIR element operands are Patient.birthDate and Observation.value[x] parsed by jsonformat with default time zone UTC",
+                     "FHIR element operands are Patient.birthDate and Observation.value[x] parsed by jsonformat with default time zone UTC; "
+                     "dateTime elements with a time part only for years 1700..2200 (jsonformat drops the fraction of far years)",
                      "a result outside 0001-01-01..9999-12-31 may be any non-panicking outcome (Appendix F rule 5)"],
-        extra={"calendar_years_checked": box["cal"].distinct, "channels_run": nchan})
+        extra={"calendar_years_checked": years, "channels_run": nchan})
 
 
-def corrupt_probe(ctx, obs, verdicts):
+def pick_probe(o, probe):
+    out = o["outs"]["direct"]
+    if o["cs"]["kind"] != "ar" or out["k"] != "ok" or len(out["items"]) != 1:
+        return
+    it = out["items"][0]
+    if "victim" not in probe and it["t"] == "date" and it["p"] == 3 and it["d"] < 28 and o["outs"]["lit"] == out:
+        probe["victim"] = o
+    elif "other" not in probe and it["t"] == "time":
+        probe["other"] = o
+
+
+def corrupt_probe(ctx, probe):
     """Binding demonstration: shift one accepted result by a day; exactly that record must be rejected."""
-    good = {v["id"] for v in verdicts if v["ok"]}
-    victim = other = None
-    for o in obs:
-        out = o["outs"]["direct"]
-        if o["id"] not in good or o["cs"]["kind"] != "ar" or out["k"] != "ok" or len(out["items"]) != 1:
-            continue
-        it = out["items"][0]
-        if victim is None and it["t"] == "date" and it["p"] == 3 and it["d"] < 28 and o["outs"]["lit"] == out:
-            victim = copy.deepcopy(o)
-        elif other is None and it["t"] == "time":
-            other = o
-        if victim is not None and other is not None:
-            break
-    if victim is None or other is None:
+    if "victim" not in probe or "other" not in probe:
         raise D.Inconclusive("corrupted-record probe: no suitable record")
+    victim = copy.deepcopy(probe["victim"])
     for ch in ("direct", "lit"):
         victim["outs"][ch]["items"][0]["d"] += 1
-    vs = judge_chunks(ctx, [victim, other], tag="corrupt")
+    vs = judge_lines(ctx, [json.dumps(victim), json.dumps(probe["other"])], tag="corrupt")
     bad = sorted(v["id"] for v in vs if not v["ok"])
     if bad != [victim["id"]]:
         raise D.Inconclusive("corrupted-record probe: the judge rejected %s, expected exactly %s" % (bad, [victim["id"]]))
